@@ -8,17 +8,19 @@
      show o h w S                                      the screen a naive painter leaves for S on a blank terminal
      same_display a b                                  same cells (character, face), same placements, no error
      spec_run                                          "after every Frame the screen displays show(drawn surface)"
-     good_surface = in_domain /\ overlap_free          the domain of the property minus the known class Overlap
-   The only assumption on the oracle is that a space is one column wide. *)
+     good_surface = in_domain /\ no_image_overlap      the domain of the property minus the known classes OverlapImages, OverlapWideImage
+   Assumption on the oracle ([oracle_ok]): a space is one column wide, a blank in the default face is
+   what an untouched terminal cell shows, and the faces the renderer erases with EraseChars
+   ([erasable]) are faces whose erased cells look like printed spaces. *)
 From Coq Require Import List NArith Bool Arith.
 From SNT Require Import Render.Cell Render.Screen Render.Frame Render.Domain Render.Spec
-  Render.GridLemmas Render.ExecProofs Render.Den Render.ShowProofs Render.HistoryProofs.
+  Render.GridLemmas Render.ExecProofs Render.Den Render.ShowProofs Render.HistoryProofs Render.Loop Render.LoopProofs.
 Import ListNotations.
 
 (* what [show] means, cell by cell: under an image a blank in the image's face, behind a wide
    character its right half, otherwise the cell's own character; placements = the image cells *)
 Theorem C01_show_is_denotation : forall o h w s,
-  cw o space = 1 -> good_surface o h w s ->
+  oracle_ok o -> good_surface o h w s ->
   let sc := show o h w s in
   err sc = false
   /\ (forall r c, r < h -> c < w ->
@@ -26,34 +28,38 @@ Theorem C01_show_is_denotation : forall o h w s,
   /\ (forall i r c, In (i, r, c) (places sc) <->
         exists x, gget (gmap (resolve o) s) r c = Some x /\ ckind x = KImg i).
 Proof.
-  intros o h w s Hsp [Hd Ho]. cbv zeta.
+  intros o h w s (Hsp & _ & Hlaw) [Hd Ho]. cbv zeta.
   assert (Hdims : gdims s h w).
   { unfold in_domain in Hd. apply andb_true_iff in Hd. apply grid_dims_true. tauto. }
-  destruct (show_den o h w s Hsp Hdims (DomainProofs.good_of_bool o h w s Hd Ho)) as (H1 & H2 & H3).
+  destruct (show_den o h w s Hsp Hlaw Hdims (DomainProofs.good_of_bool o h w s Hd Ho)) as (H1 & H2 & H3).
   split; [apply H1|]. split; assumption.
 Qed.
 
-(* MAIN: every finite history over Draw | Frame | SkipFrame | Clear | Renew, from a fresh renderer
-   on a blank terminal that executes exactly the issued commands: after every Frame the terminal
-   displays show(S) for the surface S drawn for that frame, and no command is a protocol error *)
+(* MAIN: every finite history over Draw | Frame | SkipFrame | Clear | Renew | Resize, from a fresh
+   renderer on a blank terminal that executes exactly the issued commands (a Resize replaces the
+   terminal's cells by an arbitrary screen of the new size): after every Frame the terminal displays
+   show(S) for the surface S drawn for that frame — also when clear() came between the drawing and the
+   frame — and no command is a protocol error.  [good_ops]: every drawn surface is good for the size
+   the terminal has at that moment. *)
 Theorem C01_history : forall o h w ops,
-  cw o space = 1 -> good_ops o h w ops ->
+  oracle_ok o -> good_ops o h w ops ->
   spec_run o h w (blank_screen h w) (gmake h w cell_default) ops (rrun o (rnew h w false) ops) = true.
 Proof.
   intros o h w ops Hsp Hgood.
-  exact (history_spec_run o h w ops (rnew h w false) (blank_screen h w) Hsp (hinv_init o h w false Hsp) Hgood).
+  exact (history_spec_run o ops h w (rnew h w false) (blank_screen h w) Hsp (hinv_init o h w false Hsp) Hgood).
 Qed.
 
 (* the same, in the form of the property text: a history that ends in a frame of S *)
 Theorem C01_history_final : forall o h w ops s,
-  cw o space = 1 -> good_ops o h w ops -> good_surface o h w s ->
+  oracle_ok o -> good_ops o h w ops ->
+  good_surface o (fst (size_after h w ops)) (snd (size_after h w ops)) s ->
   same_display (snd (run o (rnew h w false) (blank_screen h w) (ops ++ [Draw s; Frame])))
-               (show o h w s) = true.
+               (show o (fst (size_after h w ops)) (snd (size_after h w ops)) s) = true.
 Proof. exact history_final. Qed.
 
 (* the first frame of a fresh renderer (either value of `clear`) on a blank terminal *)
 Theorem C01_scratch : forall o h w b s,
-  cw o space = 1 -> good_surface o h w s ->
+  oracle_ok o -> good_surface o h w s ->
   same_display (exec_list o (blank_screen h w) (fst (frame o (rdraw (rnew h w b) s))))
                (show o h w s) = true.
 Proof.
@@ -66,74 +72,170 @@ Qed.
    in every cell whatever the terminal showed before (arbitrary previous screen); only placements
    the renderer cannot know about survive *)
 Theorem C01_forced : forall o h w s scr,
-  cw o space = 1 -> good_surface o h w s -> scr_ok scr h w ->
+  oracle_ok o -> good_surface o h w s -> scr_ok scr h w ->
   let scr' := exec_list o scr (fst (frame o (rdraw (rnew h w true) s))) in
   sgrid scr' = sgrid (show o h w s) /\ err scr' = false
   /\ forall i r c, In (i, r, c) (places scr') <->
                    (In (i, r, c) (places scr) \/ In (i, r, c) (places (show o h w s))).
 Proof. exact forced_repaint. Qed.
 
-Theorem C01_clear_forces : forall st, snd (rclear st) = rnew (rh st) (rw st) true.
-Proof. exact rclear_state. Qed.
+(* the frame-dropping path of Terminal::run_render: the handler has drawn into the surface, then
+   clear(), then frame() — on a terminal in an arbitrary state (its pending output was dropped) the
+   frame shows what the handler drew *)
+Theorem C01_clear_then_frame : forall o h w st scr,
+  oracle_ok o -> rh st = h -> rw st = w -> good_surface o h w (front st) -> scr_ok scr h w ->
+  let scr1 := exec_list o scr (fst (rclear st)) in
+  let scr' := exec_list o scr1 (fst (frame o (snd (rclear st)))) in
+  sgrid scr' = sgrid (show o h w (front st)) /\ err scr' = false.
+Proof. exact clear_then_frame. Qed.
 
-(* known class Overlap: with two multi-cell objects on a common cell the statement is false
-   (1x3 terminal: a 2x3 image with face 2 at column 0 and a 1x1 image at column 1; then the small
-   image is removed) *)
+(* RENDER LOOP with frame dropping (Terminal::run_render and its output queue, Render/Loop.v): the
+   handler draws, then either frame(), or - when frames_pending() exceeds TERMINAL_FRAMES_DROP
+   (regenerated from the source) - frames_drop(); clear(); frame().  The terminal executes only what
+   is delivered: every chunk (the commands between two polls) whole or not at all, a drop keeps a
+   prefix of the pending chunks (interface proved for the real queue by C16_frames,
+   C16_frames_flush_delimited, C16_render_loop_schema).  For every session - what is drawn, how many
+   chunks the tty takes at each poll, what frames_pending() answers, how many pending chunks survive
+   each drop - after EVERY delivered frame the terminal displays show(S) of the surface drawn for
+   that frame, unless some drop left an image on the terminal whose ImageErase was dropped (second
+   component of loop_spec; known class DroppedImageErase). *)
+Theorem C01_render_loop : forall o h w its,
+  oracle_ok o -> good_iters o h w its ->
+  let out := loop_model o (rnew h w false) 0 its in
+  snd (loop_spec o h w (blank_screen h w) [] (gmake h w cell_default) its out) = false ->
+  fst (loop_spec o h w (blank_screen h w) [] (gmake h w cell_default) its out) = true.
+Proof.
+  intros o h w its Hok Hgood. cbv zeta.
+  exact (render_loop_correct o h w its (rnew h w false) 0 (blank_screen h w) [] (gmake h w cell_default)
+                             Hok (linv_init o h w Hok) Hgood).
+Qed.
+
+(* known classes OverlapImages / OverlapWideImage: with an image on a cell that another image or a
+   wide character occupies the statement is false on the faithful model; one witness per sub-class.
+   (Wide characters hiding one another are inside the theorems.) *)
 Definition chr (f c : N) : cell := mkcell f (KChar c).
 Definition img (f i : N) : cell := mkcell f (KImg i).
 Definition gly (f g : N) : cell := mkcell f (KGlyph g).
 
 Definition overlap_oracle : oracle :=
-  mkoracle (fun _ => 1) (fun i => if N.eqb i 1%N then (2, 3) else (1, 1)) (fun g f => (1000 + 16 * g + f)%N).
-Definition overlap_ops : list op :=
+  mkoracle (fun ch => if N.leb 19990%N ch then 2 else 1)
+           (fun i => if N.eqb i 1%N then (2, 3) else (1, 1)) (fun g f => (1000 + 16 * g + f)%N)
+           (fun f => f) (fun f => f) (fun _ => true).
+
+Definition refuted_by (ops : list op) : Prop :=
+  oracle_ok overlap_oracle
+  /\ (forall g, In (Draw g) ops -> in_domain overlap_oracle 1 3 g = true)
+  /\ spec_run overlap_oracle 1 3 (blank_screen 1 3) (gmake 1 3 cell_default) ops
+              (rrun overlap_oracle (rnew 1 3 false) ops) = false.
+
+(* a 2x3 image with face 2 at column 0 and a 1x1 image at column 1; then the small image is removed *)
+Definition overlap_images_ops : list op :=
   [Draw [[img 2%N 1%N; img 0%N 0%N; cell_default]]; Frame;
    Draw [[img 2%N 1%N; cell_default; cell_default]]; Frame].
+(* a wide character with a 1x1 image on its right half; then the image is removed *)
+Definition overlap_wide_image_ops : list op :=
+  [Draw [[chr 0%N 19990%N; img 1%N 0%N; cell_default]]; Frame;
+   Draw [[chr 0%N 19990%N; cell_default; cell_default]]; Frame].
 
-Theorem C01_overlap_refuted :
-  cw overlap_oracle space = 1
-  /\ (forall g, In (Draw g) overlap_ops -> in_domain overlap_oracle 1 3 g = true)
-  /\ spec_run overlap_oracle 1 3 (blank_screen 1 3) (gmake 1 3 cell_default) overlap_ops
-              (rrun overlap_oracle (rnew 1 3 false) overlap_ops) = false.
+Ltac refute :=
+  split; [repeat split|]; split;
+  [intros g Hin; simpl in Hin;
+   repeat (destruct Hin as [Hin|Hin]; [inversion Hin; subst; vm_compute; reflexivity|]); contradiction
+  |vm_compute; reflexivity].
+
+Theorem C01_overlap_images_refuted : refuted_by overlap_images_ops.
+Proof. refute. Qed.
+Theorem C01_overlap_wide_image_refuted : refuted_by overlap_wide_image_ops.
+Proof. refute. Qed.
+
+(* known class DroppedImageErase: frame 1 places an image and is delivered; frame 2 (which erases it)
+   is still pending when frame 3 finds the queue too long: frame 2 is dropped, clear() erases only the
+   images of the back buffer, the image stays on the terminal *)
+Definition stale_session : list iter :=
+  [mkiter 0 [[img 0%N 0%N; cell_default]] AWait None 1;
+   mkiter 1 [[cell_default; cell_default]] AWait None 1;
+   mkiter 0 [[chr 0%N 97%N; cell_default]] AWait (Some 40) 0].
+
+Theorem C01_dropped_image_erase_refuted :
+  oracle_ok overlap_oracle /\ good_iters overlap_oracle 1 2 stale_session
+  /\ loop_spec overlap_oracle 1 2 (blank_screen 1 2) [] (gmake 1 2 cell_default) stale_session
+               (loop_model overlap_oracle (rnew 1 2 false) 0 stale_session) = (false, true).
 Proof.
-  split; [reflexivity|]. split.
-  - intros g [H|[H|[H|[H|[]]]]]; inversion H; subst; vm_compute; reflexivity.
+  split; [repeat split|]. split.
+  - unfold stale_session, good_iters. repeat constructor; vm_compute; reflexivity.
   - vm_compute. reflexivity.
 Qed.
 
+(* non-vacuity of C01_render_loop: 34 frames pile up (the tty takes nothing), the 35th iteration finds
+   33 > TERMINAL_FRAMES_DROP pending: frames_drop keeps the front chunk, clear, frame; then everything
+   is delivered *)
+Definition pile_session : list iter :=
+  repeat (mkiter 0 [[chr 1%N 97%N; chr 0%N 19990%N; cell_default]] AWait None 1) 17
+  ++ repeat (mkiter 0 [[chr 0%N 19990%N; cell_default; chr 2%N 98%N]] AWait None 1) 17
+  ++ [mkiter 0 [[chr 0%N 120%N; chr 0%N 19990%N; cell_default]] AWait None 1;
+      mkiter 9 [[chr 0%N 120%N; chr 0%N 121%N; cell_default]] AWaitNoFrame None 1;
+      mkiter 0 [[chr 0%N 120%N; chr 0%N 121%N; cell_default]] AWait None 1].
+
+Example C01_render_loop_nonvacuous :
+  good_iters overlap_oracle 1 3 pile_session
+  /\ existsb fst (loop_model overlap_oracle (rnew 1 3 false) 0 pile_session) = true
+  /\ loop_spec overlap_oracle 1 3 (blank_screen 1 3) [] (gmake 1 3 cell_default) pile_session
+               (loop_model overlap_oracle (rnew 1 3 false) 0 pile_session) = (true, false).
+Proof.
+  split; [|split; vm_compute; reflexivity].
+  assert (Hb : forallb (fun it => in_domain overlap_oracle 1 3 (it_draw it)
+                                  && no_image_overlap overlap_oracle 1 3 (it_draw it)) pile_session = true)
+    by (vm_compute; reflexivity).
+  apply Forall_forall. intros it Hin. rewrite forallb_forall in Hb. specialize (Hb it Hin).
+  apply andb_true_iff in Hb. exact Hb.
+Qed.
+
 Check C01_history : forall o h w ops,
-  cw o space = 1 -> good_ops o h w ops ->
+  oracle_ok o -> good_ops o h w ops ->
   spec_run o h w (blank_screen h w) (gmake h w cell_default) ops (rrun o (rnew h w false) ops) = true.
 
 Check C01_forced : forall o h w s scr,
-  cw o space = 1 -> good_surface o h w s -> scr_ok scr h w ->
+  oracle_ok o -> good_surface o h w s -> scr_ok scr h w ->
   let scr' := exec_list o scr (fst (frame o (rdraw (rnew h w true) s))) in
   sgrid scr' = sgrid (show o h w s) /\ err scr' = false
   /\ forall i r c, In (i, r, c) (places scr') <->
                    (In (i, r, c) (places scr) \/ In (i, r, c) (places (show o h w s))).
 
 (* non-vacuity: a history with a wide character, a cell behind it, an image, a cell under the
-   image, a glyph, a blank run longer than 4, Clear, Renew and SkipFrame is in the domain, and the
+   image, a glyph, a blank run longer than 4 (erased) and one in an underlining face (face 4, printed
+   as spaces), Clear (also between Draw and Frame), Renew, SkipFrame, a Resize to a garbage screen and a wide
+   character hidden behind another one (then uncovered) is in the domain, and the
    renderer issues commands for it (wide = U+4E16, width 2; image 1 is 2x3 cells) *)
 Definition ex_oracle : oracle :=
   mkoracle (fun ch => if N.eqb ch 19990%N then 2 else 1)
-           (fun i => if N.eqb i 1%N then (2, 3) else (1, 1)) (fun g f => (1000 + 16 * g + f)%N).
+           (fun i => if N.eqb i 1%N then (2, 3) else (1, 1)) (fun g f => (1000 + 16 * g + f)%N)
+           (fun f => f) (fun f => if N.eqb f 4%N then 0%N else f) (fun f => negb (N.eqb f 4%N)).
 Definition ex_s1 : grid cell :=
   [[chr 1%N 19990%N; chr 0%N 120%N; img 2%N 1%N; chr 0%N 97%N; cell_default; cell_default; cell_default];
    [cell_default; gly 3%N 0%N; cell_default; cell_default; chr 1%N 98%N; chr 0%N 19990%N; cell_default]].
 Definition ex_s2 : grid cell :=
   [[chr 0%N 97%N; chr 0%N 120%N; chr 1%N 32%N; chr 1%N 32%N; chr 1%N 32%N; chr 1%N 32%N; chr 1%N 32%N];
    [cell_default; gly 3%N 0%N; cell_default; cell_default; chr 1%N 98%N; cell_default; cell_default]].
+Definition ex_s3 : grid cell :=
+  [[chr 4%N 32%N; chr 4%N 32%N; chr 4%N 32%N; chr 4%N 32%N; chr 4%N 32%N; chr 4%N 32%N; cell_default];
+   [cell_default; cell_default; cell_default; cell_default; cell_default; cell_default; cell_default]].
 Definition ex_ops : list op :=
-  [Draw ex_s1; Frame; Draw ex_s2; Frame; Clear; Draw ex_s1; SkipFrame; Frame; Draw ex_s1; Frame; Renew; Draw ex_s2; Frame].
+  [Draw ex_s1; Frame; Draw ex_s2; Frame; Clear; Draw ex_s1; SkipFrame; Frame; Draw ex_s1; Frame; Renew; Draw ex_s2; Frame; Draw ex_s3; Clear; Frame;
+   Resize 1 2 [[(WR, 3%N); (Orphan, 1%N)]]; Draw [[chr 1%N 19990%N; chr 0%N 97%N]]; Frame;
+   Resize 1 4 [[(Blank, 0%N); (Blank, 0%N); (Blank, 0%N); (Blank, 0%N)]];
+   Draw [[chr 0%N 19990%N; chr 1%N 19990%N; chr 0%N 120%N; chr 0%N 121%N]]; Frame;
+   Draw [[chr 0%N 97%N; chr 1%N 19990%N; chr 0%N 120%N; chr 0%N 121%N]]; Frame].
 
 Example C01_history_nonvacuous :
-  cw ex_oracle space = 1 /\ good_ops ex_oracle 2 7 ex_ops
-  /\ length (concat (rrun ex_oracle (rnew 2 7 false) ex_ops)) = 82
+  oracle_ok ex_oracle /\ good_ops ex_oracle 2 7 ex_ops
+  /\ length (concat (rrun ex_oracle (rnew 2 7 false) ex_ops)) = 108
   /\ existsb (fun c => match c with CEraseChars 5 => true | _ => false end)
              (concat (rrun ex_oracle (rnew 2 7 false) ex_ops)) = true.
 Proof.
-  split; [reflexivity|]. split; [|split; vm_compute; reflexivity].
-  intros g Hin. unfold ex_ops in Hin. simpl in Hin.
-  repeat (destruct Hin as [Hin|Hin]; [inversion Hin; subst; split; vm_compute; reflexivity|]).
-  contradiction.
+  split.
+  { split; [reflexivity|]. split; [reflexivity|]. intros f H. unfold ex_oracle in *. cbn [erasable ferase fspace] in *.
+    destruct (N.eqb f 4%N); [discriminate|reflexivity]. }
+  split; [|split; vm_compute; reflexivity].
+  unfold ex_ops. cbn [good_ops]. repeat split; try (vm_compute; reflexivity);
+    intros row Hin; simpl in Hin; destruct Hin as [<-|[]]; reflexivity.
 Qed.
